@@ -514,8 +514,11 @@ fn _factor_inner<T: FloatT>(
     next_colspace.copy_from_slice(&Lp[0..Lp.len() - 1]);
 
     if !logical_factor {
-        // First element of the diagonal D.
-        D[0] = Ax[0];
+        // First element of the diagonal D.  The first column of an upper
+        // triangular matrix holds at most its diagonal entry, but it can
+        // be empty once a matrix with a structurally zero diagonal entry
+        // has been permuted, in which case the pivot is zero.
+        D[0] = if Ap[1] > Ap[0] { Ax[Ap[0]] } else { T::zero() };
         if regularize_enable {
             let sign = T::from_i8(Dsigns[0]).unwrap();
             if D[0] * sign < regularize_eps {
